@@ -108,6 +108,7 @@ type Session struct {
 
 	ctx          context.Context
 	cancel       context.CancelFunc
+	cancelTimers func() // stops the heartbeat and test-request timers of the current logon
 	errorHandler func(error)
 	timeLocation *time.Location
 	mu           sync.Mutex
@@ -471,6 +472,8 @@ func (s *Session) Run() (err error) {
 			s.RejectMessage(data)
 		}
 
+		s.stopTimers()
+
 		if s.side == sideInitiator {
 			s.changeState(WaitingLogonAnswer, true)
 		} else {
@@ -558,6 +561,16 @@ func (s *Session) start() error {
 		return err
 	}
 
+	// The timers belong to one logon: they are stopped when the session is logged out
+	// (and when the session itself ends), and a new logon starts a new pair.
+	s.stopTimers()
+	timersCtx, cancelTimersCtx := context.WithCancel(s.ctx)
+	s.cancelTimers = func() {
+		cancelTimersCtx()
+		incomingMsgTimer.Close()
+		outgoingMsgTimer.Close()
+	}
+
 	s.Router.HandleIncoming(simplefixgo.AllMsgTypes, func(msg []byte) bool {
 		incomingMsgTimer.Refresh()
 		if s.state == WaitingTestReqAnswer {
@@ -578,9 +591,13 @@ func (s *Session) start() error {
 		for {
 			incomingMsgTimer.TakeTimeout()
 			select {
-			case <-s.ctx.Done():
+			case <-timersCtx.Done():
 				return
 			default:
+			}
+
+			if !s.isLoggedOrProbing() {
+				continue
 			}
 
 			if s.state == WaitingTestReqAnswer {
@@ -604,9 +621,13 @@ func (s *Session) start() error {
 		for {
 			outgoingMsgTimer.TakeTimeout()
 			select {
-			case <-s.ctx.Done():
+			case <-timersCtx.Done():
 				return
 			default:
+			}
+
+			if !s.isLoggedOrProbing() {
+				continue
 			}
 
 			heartbeat := s.MessageBuilders.HeartbeatBuilder.Build()
@@ -616,6 +637,22 @@ func (s *Session) start() error {
 	}()
 
 	return nil
+}
+
+// isLoggedOrProbing reports whether the session is logged on, including the period in which
+// it waits for the answer to its own TestRequest.
+func (s *Session) isLoggedOrProbing() bool {
+	s.stateMu.RLock()
+	defer s.stateMu.RUnlock()
+
+	return s.state == SuccessfulLogged || s.state == WaitingTestReqAnswer
+}
+
+func (s *Session) stopTimers() {
+	if s.cancelTimers != nil {
+		s.cancelTimers()
+		s.cancelTimers = nil
+	}
 }
 
 func (s *Session) RejectMessage(msg []byte) {
